@@ -7,7 +7,7 @@ from vf.spec import X
 from vf.stubs import FakePool, NULL_LOGGER
 import ECAgent.Batching as B
 from ECAgent.Batching import ScoreMode
-from ECAgent.Core import Model
+from ECAgent.Core import Model, System
 
 MODES = [ScoreMode.MIN, ScoreMode.MAX, ScoreMode.MIN_MEAN, ScoreMode.MAX_MEAN, ScoreMode.MIN_SUM, ScoreMode.MAX_SUM,
          ScoreMode.MIN_VARIANCE, ScoreMode.MAX_VARIANCE]
@@ -192,6 +192,51 @@ def selection(s0: int, s1: int, s2: int, s3: int, parity: bool, o0: int, o1: int
     return hx.end(True)
 
 
+class _Fuse(System):
+    def execute(self):
+        if self.model.systems.timestep >= 40:
+            self.model.complete()
+
+
+class GRun(Model):
+    """a model that keeps running far beyond any step limit used here (a fuse completes it at timestep 40, so that a
+    runner which loses the limit is refuted instead of running for ever)"""
+    __slots__ = ['x']
+
+    def __init__(self, x):
+        super().__init__(logger=NULL_LOGGER)
+        self.x = x
+        self.systems.add_system(_Fuse("fuse", self))
+
+
+def _score_steps(model):
+    return model.systems.timestep * 10 + model.x
+
+
+def step_limit(mx: int) -> bool:
+    """
+    pre: 0 <= mx <= 4
+    post: _
+    """
+    # the explicit step limit reaches every execution, whatever the number of worker processes: models still running at
+    # the limit are scored there
+    hx.begin()
+    procs = hx.P['procs']
+    saved = B.Pool
+    B.Pool = FakePool
+    FakePool.order = [1, 0, 1]
+    try:
+        best, results = B.grid_search(GRun, {"x": [0, 1, 2]}, _score_steps, processes=procs, max_timesteps=mx, mode=ScoreMode.MAX)
+    finally:
+        B.Pool = saved
+    hx.reach('searched')
+    want = [mx * 10 + x for x in (0, 1, 2)]
+    got = [r.get("score") for r in results]
+    if got != want or [r.get("x") for r in results] != [0, 1, 2]:
+        return hx.end(hx.fail("scores of models that were still running at the step limit", got=got, exp=want, processes=procs, limit=mx))
+    return hx.end(best is results[2])
+
+
 def repetitions(a0: int, a1: int, a2: int, b0: int, b1: int, b2: int, mi: int) -> bool:
     """
     pre: mi in (0, 1, 4, 5)
@@ -320,6 +365,8 @@ def obligations(tier):
           [{"k": 3, "procs": 1, "values": v} for v in ("iterator", "generator")] + [{"k": 3, "procs": 1, "values": "equal_but_distinct"}, {"k": 5, "procs": 2, "values": "equal_but_distinct"}] + [{"k": 5, "procs": 3}, {"k": 5, "procs": 2}],
           labels=("best_last", "best_first"), labels_for=lambda p: ("best_last", "best_first") if p["k"] > 1 else ("best_first",),
           timeout=600, encoded=enc, bounds={"combinations": "1..4 (quick) / 1..6 (thorough)", "aggregates": "all ints"}),
+        X("step_limit", step_limit, parts=[{"procs": 1}, {"procs": 2}, {"procs": 3}], labels=("searched",), timeout=300, encoded=enc,
+          bounds={"step limit": "0..4", "combinations": 3}),
         X("reuse", reuse, parts=[{"procs2": 1}, {"procs2": 2}], labels=("second_search",), timeout=600, encoded=enc + (B.ParameterList.build,)),
         X("repetitions", repetitions, parts=[{"reps": r, "procs": p} for r in (1, 2, 3) for p in (1, 2) if not (p == 2 and r == 1)],
           labels=("second_best", "first_best"), timeout=900, encoded=enc),
